@@ -993,6 +993,38 @@ class Prims:
                                      "(unhashable) when used as a key"))
         return out
 
+    def _enum_index_safe(self, n, idx, fn, sc, base_path):
+        if isinstance(fn.node, ast.Lambda):
+            return False
+        loops = [l for l in ast.walk(fn.node) if isinstance(l, ast.For) and any(x is n for b_ in l.body for x in ast.walk(b_))]
+        for l in loops:
+            it = l.iter
+            if not (isinstance(it, ast.Call) and norm(it.func) == "enumerate" and 1 <= len(it.args) <= 2 and not it.keywords
+                    and isinstance(l.target, ast.Tuple) and len(l.target.elts) == 2 and isinstance(l.target.elts[0], ast.Name)):
+                continue
+            k = 0
+            if len(it.args) == 2:
+                if not (isinstance(it.args[1], ast.Constant) and isinstance(it.args[1].value, int)):
+                    continue
+                k = it.args[1].value
+            c = l.target.elts[0].id
+            okidx = (k == 0 and isinstance(idx, ast.Name) and idx.id == c) or \
+                (isinstance(idx, ast.BinOp) and isinstance(idx.op, ast.Sub) and isinstance(idx.left, ast.Name) and idx.left.id == c
+                 and isinstance(idx.right, ast.Constant) and idx.right.value == k)
+            if not okidx:
+                continue
+            # the counter is not re-bound inside the loop
+            if any(isinstance(x, ast.Name) and x.id == c and isinstance(x.ctx, ast.Store) for b_ in l.body for x in ast.walk(b_)):
+                continue
+            for o in self.origins(it.args[0], fn, sc):
+                if o[0] != "R":
+                    continue
+                atoms = self.path_atoms(n, fn, sc, base_path) | self.path_atoms(n, fn, sc, o[1])
+                if any(a.kind == "leneq" and ((a.path == base_path and a.args == (".".join(o[1]),)) or (a.path == o[1] and a.args == (".".join(base_path),)))
+                       for a in atoms):
+                    return True
+        return False
+
     def _subscript(self, n, fn, sc):
         out = []
         base = self.origins(n.value, fn, sc)
@@ -1057,6 +1089,10 @@ class Prims:
                 # computed key guarded by a dominating `key in container` test
                 if self._membership_fact(n, idx, fn, sc):
                     self.record(fn, n, "request[key]", "disarmed", "dominating membership test")
+                    continue
+                # the counter of `for c, x in enumerate(M, k)` used as index c - k into a list the validator proved as long as M
+                if self._enum_index_safe(n, idx, fn, sc, b[1]):
+                    self.record(fn, n, "request[i]", "disarmed", "enumerate counter of a list of equal length (validator: leneq)")
                     continue
                 # positional / computed index into client list
                 if self.just(fn, n, "IndexError"):
